@@ -8,6 +8,8 @@ As a script (run by harness/h-render, one batch per case file):
 every request line is `<mode> <palette: 96 hex digits> <svg bytes, hex>`, mode is
   doc   the canonical form documented in ocaml/drv_svg.ml
   text  `n=<rows>` then the text of every foreground row (code points joined by '.')
+  cls   `n=<rows>` then per row its pieces `<fg classes>/<bg class or ->:<text>`,
+        neighbouring pieces of equal classes merged
 A document expat rejects yields `NOT-WELL-FORMED <message>`.
 
 As a module (vlib/props/c14.py): `oracle(svg bytes)` reads the two quantities that
@@ -250,6 +252,26 @@ def canon_text(data):
     return "n=%d" % len(rows) + "".join(" " + (dotted("".join(t for _c, t in fg)) or "-") for _x, _y, _bg, fg in rows)
 
 
+def canon_cls(data):
+    _root, _rect, _text, _rules, rows, problems = structure(data)
+    out = ["n=%d" % len(rows)]
+    for _x, _y, bg, fg in rows:
+        if bg is not None and len(bg) != len(fg):
+            problems.append("bg-fg-span-count")
+            bg = None
+        pieces = []
+        for j, (cls, text) in enumerate(fg):
+            key = ("+".join(cls.split(" ")) if cls is not None else "",
+                   "-" if bg is None or bg[j][0] is None else "+".join(bg[j][0].split(" ")))
+            if pieces and pieces[-1][0] == key:
+                pieces[-1] = (key, pieces[-1][1] + text)
+            else:
+                pieces.append((key, text))
+        out.append("| " + ",".join("%s/%s:%s" % (k[0], k[1], dotted(t)) for k, t in pieces))
+    r = " ".join(out)
+    return r + (" problems=" + ";".join(problems) if problems else "")
+
+
 ROW = re.compile(rb'^    <tspan x="\d+px" y="(\d+)px">(.*)$')
 SPAN = re.compile(rb'<tspan(?: class="[^"]*")?>([^<]*)</tspan>')
 
@@ -291,7 +313,7 @@ def main(argv):
             palette = [(pb[3 * i], pb[3 * i + 1], pb[3 * i + 2]) for i in range(16)]
             data = bytes.fromhex(hx)
             try:
-                r = canon_doc(data, palette) if mode == "doc" else canon_text(data)
+                r = canon_doc(data, palette) if mode == "doc" else canon_cls(data) if mode == "cls" else canon_text(data)
             except expat.ExpatError as e:
                 r = "NOT-WELL-FORMED %s" % str(e).replace("\n", " ")
             out.write(r + "\n")
